@@ -3,10 +3,12 @@
    cache top-down through the control ports.  Additional records:
 
      ctl     comp kind cmd ok err answered     acknowledgment of Drain / Enable
-     flush   comp kind bs addrs pid ok before after wrote reads
+     flush   comp kind bs addrs pid ok before after pending wrote reads
                                                one Flush: the filter, the cache's directory
                                                (slot by slot) before the request and after the
-                                               acknowledgment, the lines written downwards
+                                               acknowledgment, the lines written downwards in
+                                               between (wrote) and the eviction write-backs that
+                                               were already queued in its write buffer (pending)
      backing vals                              the controllers' storages over the footprint,
                                                read after the last cache was flushed
 
@@ -15,6 +17,7 @@
    flat memory `mem` at every written address that no unanswered write is touching.  *)
 EXTENDS MemTrace, FlushRules
 
+ByFlush == Without(Ev.wrote, Ev.pending)
 Filter == [addrs |-> {Ev.addrs[i] : i \in 1..Len(Ev.addrs)}, pid |-> Ev.pid]
 BadSlots(P(_)) == {i \in 1..Len(Ev.before) : ~P(i)}
 FlushClass ==
@@ -26,8 +29,8 @@ FlushClass ==
     ELSE IF \E i \in 1..Len(b) : Selected(b[i], F, bs) /\ a[i].dirty THEN "flush_matching_dirty_line_left_dirty"
     ELSE IF \E i \in 1..Len(b) : b[i].valid /\ b[i].dirty /\ ~Matches(b[i], F, bs) /\ ~a[i].dirty THEN "flush_nonmatching_dirty_line_cleaned"
     ELSE IF \E i \in 1..Len(b) : ~DirtyRule(b[i], a[i], F, bs) THEN "flush_clean_line_became_dirty"
-    ELSE IF ~WrittenExactly(b, Ev.wrote, F, bs) THEN "flush_wrote_other_than_matching_dirty_lines"
-    ELSE IF ~FlushFilteredOK(b, a, Ev.wrote, F, bs) THEN "flush_rule"
+    ELSE IF ~WrittenExactly(b, ByFlush, F, bs) THEN "flush_wrote_other_than_matching_dirty_lines"
+    ELSE IF ~FlushFilteredOK(b, a, ByFlush, F, bs) THEN "flush_rule"
     ELSE "ok"
 
 TCtl == /\ Ev.e = "ctl"
@@ -39,7 +42,7 @@ TCtl == /\ Ev.e = "ctl"
 TFlush == /\ Ev.e = "flush"
           /\ LET cl == FlushClass IN
              IF cl = "ok" THEN UNCHANGED bad
-             ELSE Flag(cl, [comp |-> Ev.comp, kind |-> Ev.kind, addrs |-> Ev.addrs, pid |-> Ev.pid, wrote |-> Ev.wrote,
+             ELSE Flag(cl, [comp |-> Ev.comp, kind |-> Ev.kind, addrs |-> Ev.addrs, pid |-> Ev.pid, wrote |-> Ev.wrote, pending |-> Ev.pending,
                             slots |-> {<<Ev.before[i], Ev.after[i]>> : i \in {j \in 1..Len(Ev.before) :
                                            j <= Len(Ev.after) /\ (Ev.before[j].valid \/ Ev.after[j].valid)}}])
           /\ UNCHANGED <<mem, outstanding, answered, acked, log, ended, run, size>>
